@@ -33,15 +33,102 @@ func syncReach(root *ssa.Function) map[*ssa.Function]bool {
 				if cal := staticCallee(&x.Call); cal != nil && cal.Pkg == root.Pkg {
 					w(cal)
 				}
+				for _, g := range fnValuesForParam(f, x.Call.Value) {
+					w(g)
+				}
 			case *ssa.Defer:
 				if cal := staticCallee(&x.Call); cal != nil && cal.Pkg == root.Pkg {
 					w(cal)
+				}
+				for _, g := range fnValuesForParam(f, x.Call.Value) {
+					w(g)
 				}
 			}
 		})
 	}
 	w(root)
 	return seen
+}
+
+// fnValuesForParam: v is a function-typed parameter of f that f calls; the functions / closures the
+// callers of f in its package pass for it (attempt func() in dial(c, attempt), filled at `go m.dial(c,
+// func() {...})`): they run synchronously inside f.
+func fnValuesForParam(f *ssa.Function, v ssa.Value) []*ssa.Function {
+	pp, ok := v.(*ssa.Parameter)
+	if !ok || f.Pkg == nil {
+		return nil
+	}
+	if _, isSig := pp.Type().Underlying().(*types.Signature); !isSig {
+		return nil
+	}
+	idx := -1
+	for i, q := range f.Params {
+		if q == pp {
+			idx = i
+		}
+	}
+	if idx < 0 {
+		return nil
+	}
+	var out []*ssa.Function
+	for _, m := range f.Pkg.Members {
+		mf, ok := m.(*ssa.Function)
+		if !ok {
+			continue
+		}
+		for _, g := range withAnon(mf) {
+			out = append(out, fnArgsAt(g, f, idx)...)
+		}
+	}
+	if nt := f.Signature.Recv(); nt != nil {
+		// methods are not package members: walk the methods of the named types of the package
+		for _, m := range f.Pkg.Members {
+			if t, ok := m.(*ssa.Type); ok {
+				for _, T := range []types.Type{t.Type(), types.NewPointer(t.Type())} {
+					ms := f.Prog.MethodSets.MethodSet(T)
+					for i := 0; i < ms.Len(); i++ {
+						if mf := f.Prog.MethodValue(ms.At(i)); mf != nil && mf.Pkg == f.Pkg {
+							for _, g := range withAnon(mf) {
+								out = append(out, fnArgsAt(g, f, idx)...)
+							}
+						}
+					}
+				}
+			}
+		}
+	} else {
+		for _, m := range f.Pkg.Members {
+			if t, ok := m.(*ssa.Type); ok {
+				for _, T := range []types.Type{t.Type(), types.NewPointer(t.Type())} {
+					ms := f.Prog.MethodSets.MethodSet(T)
+					for i := 0; i < ms.Len(); i++ {
+						if mf := f.Prog.MethodValue(ms.At(i)); mf != nil && mf.Pkg == f.Pkg {
+							for _, g := range withAnon(mf) {
+								out = append(out, fnArgsAt(g, f, idx)...)
+							}
+						}
+					}
+				}
+			}
+		}
+	}
+	return out
+}
+
+func fnArgsAt(g, callee *ssa.Function, idx int) []*ssa.Function {
+	var out []*ssa.Function
+	for _, ci := range callsIn(g) {
+		if staticCallee(ci.Common()) != callee || idx >= len(ci.Common().Args) {
+			continue
+		}
+		switch a := unwrap(ci.Common().Args[idx]).(type) {
+		case *ssa.MakeClosure:
+			out = append(out, a.Fn.(*ssa.Function))
+		case *ssa.Function:
+			out = append(out, a)
+		}
+	}
+	return out
 }
 
 // syncReachExcept is syncReach that does not enter functions for which skip is true.
